@@ -15,6 +15,8 @@ import (
 	"go/types"
 	"sort"
 	"strings"
+
+	"golang.org/x/tools/go/ssa"
 )
 
 type lin struct {
@@ -1174,4 +1176,66 @@ func pointOf(v aval) (x, y lin, ok bool) {
 	lx, ok1 := sq.e[0].(lin)
 	ly, ok2 := sq.e[1].(lin)
 	return lx, ly, ok1 && ok2
+}
+
+// dispatchCallee finds the function an algorithm constant dispatches to: in (Alg).Process of the package, the first
+// same-package function called in the case clause of `case <constName>:`. Robust to renaming the exec* functions
+// (the constants are public API through autolayout_options_algs.go).
+func dispatchCallee(m *Model, shortpkg, constName, fallback string) string {
+	fn := m.TypesFunc(shortpkg, "Alg", "Process")
+	if fn == nil || m.Decl[fn] == nil {
+		return fallback
+	}
+	p := m.DeclPkg[fn]
+	info := p.TypesInfo
+	found := ""
+	ast.Inspect(m.Decl[fn].Body, func(n ast.Node) bool {
+		cc, ok := n.(*ast.CaseClause)
+		if !ok || found != "" {
+			return true
+		}
+		match := false
+		for _, e := range cc.List {
+			if id, ok := e.(*ast.Ident); ok && id.Name == constName {
+				match = true
+			}
+		}
+		if !match {
+			return true
+		}
+		for _, st := range cc.Body {
+			ast.Inspect(st, func(n2 ast.Node) bool {
+				if call, ok := n2.(*ast.CallExpr); ok && found == "" {
+					if f, ok := calleeObj(info, call).(*types.Func); ok && f.Pkg() == p.Types {
+						if sig, ok := f.Type().(*types.Signature); ok && sig.Recv() == nil {
+							found = f.Name()
+						}
+					}
+				}
+				return true
+			})
+		}
+		return true
+	})
+	if found == "" {
+		return fallback
+	}
+	return found
+}
+
+// yAssigner finds the function called by phase4's Process after the dispatch switch that writes Node.Y.
+func yAssigner(m *Model) string {
+	m.fxInit()
+	p4 := m.SSAFunc("internal/phase4", "(Alg).Process")
+	if p4 == nil {
+		return "assignYCoords"
+	}
+	name := "assignYCoords"
+	for _, s := range staticCalls(p4, func(c *ssa.Function) bool {
+		e := m.effects[c]
+		return e != nil && e.Mod[igNode+".Y"] && pkgPathOf(c) == pkgPathOf(p4) && !(len(c.Params) == 2 && namedKey(c.Params[1].Type()) == igPar)
+	}) {
+		name = s.Common().StaticCallee().Name()
+	}
+	return name
 }
